@@ -272,9 +272,12 @@ func (g *gen) boolExpr(d int) *Expr {
 	}
 	k := g.intn(100, "bk")
 	switch {
-	case k < 50:
+	case k < 46:
 		s := g.ty("cmp-ty")
 		return bin(cmpOps[g.intn(6, "cmp")], U8, g.expr(s, d-1), g.expr(s, d-1))
+	case k < 50:
+		// a comparison of comparison results (u8): exercises the associativity of level 5
+		return bin(cmpOps[g.intn(6, "cmp")], U8, g.boolExpr(d-1), g.expr(U8, d-1))
 	case k < 58:
 		// guarded division, as in operators.mdx: b != 0 and (a / b) > 10
 		var ints []int
